@@ -609,6 +609,7 @@ package otr3
 //@   requires r != nil
 //@   modifies r.messages.m, elems(r.messages.m)
 //@   ensures [C18.queue.append] !old(r.retransmitting) ==> len(r.messages.m) == len(old(r.messages.m)) + 1
+//@   ensures [C18.queue.copy,C08.queue.copy] !old(r.retransmitting) ==> fresh(r.messages.m[len(r.messages.m) - 1].m)
 //@   ensures [C18.queue.skip,C19.queue.skip] old(r.retransmitting) ==> r.messages.m === old(r.messages.m)
 //@ func (*resendContext).pending
 //@   requires r != nil
@@ -632,9 +633,11 @@ package otr3
 //@   ensures [C03.ctr.advance,C04.send.ctr.advance,C10.ctr.unique] result2 == nil ==> (forall i in 0..len(old(c.keys.counterHistory.counters)) :: (old(pairAt(c.keys.counterHistory, i, c.keys.ourKeyID - 1, c.keys.theirKeyID)) && old(c.keys.counterHistory.counters[i].ourCounter) < 9223372036854775807) ==> c.keys.counterHistory.counters[i].ourCounter > old(c.keys.counterHistory.counters[i].ourCounter))
 //@   ensures result2 == nil ==> (result0.y != nil && len(result0.authenticator) == 20)
 
+//@ ghoststate serialized Int
 //@ func (*Conversation).createSerializedDataMessage
 //@   requires convOK(c)
 //@   modifies anything
+//@   ghostset serialized(c) = old(serialized(c)) + 1
 //@   preserves [C18.msgstate.create] c.msgState, c.theirKey, c.ake, c.version, c.Policies, c.keys.ourKeyID, c.keys.theirKeyID, c.smp.state, c.smp.secret, c.smp.s1, c.smp.s2, c.smp.s3, c.smp.question, c.sentRevealSig, c.ourCurrentKey, c.theirInstanceTag
 //@   ensures [C03.create.requires.encrypted] result2 == nil ==> old(c.msgState) == encrypted
 //@   ensures [C03.create.refuse] old(c.msgState) != encrypted ==> (result2 != nil && result0 === nil && c.resend.messages.m === old(c.resend.messages.m))
@@ -669,6 +672,9 @@ package otr3
 //@ func (*Conversation).sendMessageOnEncrypted
 //@   requires convOK(c)
 //@   modifies anything
+//@   modifies serialized(c)
+//@   ensures [C03.enc.generated] serialized(c) == old(serialized(c)) + 1
+//@   preserves [C04.sendenc.keys] c.keys.theirCurrentDHPubKey, c.keys.theirPreviousDHPubKey, c.keys.ourCurrentDHKeys.priv, c.keys.ourPreviousDHKeys.priv, c.keys.ourCurrentDHKeys.pub, c.keys.ourPreviousDHKeys.pub
 //@   preserves [C18.msgstate.sendenc] c.msgState, c.theirKey, c.ake, c.version, c.Policies, c.keys.ourKeyID, c.keys.theirKeyID
 //@   modifies msglog(c)
 //@   ensures [C03.enc.err] result1 != nil ==> result0 === nil
@@ -676,6 +682,10 @@ package otr3
 //@ func (*Conversation).Send
 //@   requires convOK(c)
 //@   modifies anything
+//@   modifies serialized(c)
+//@   ensures [C03.send.enc.generated] ((hasPol(c, allowV2) || hasPol(c, allowV3)) && !c.debug && old(c.msgState) == encrypted) ==> serialized(c) == old(serialized(c)) + 1
+//@   ensures [C03.send.noenc.none] old(c.msgState) != encrypted ==> serialized(c) == old(serialized(c))
+//@   preserves [C04.send.keys] c.keys.theirCurrentDHPubKey, c.keys.theirPreviousDHPubKey, c.keys.ourCurrentDHKeys.priv, c.keys.ourPreviousDHKeys.priv, c.keys.ourCurrentDHKeys.pub, c.keys.ourPreviousDHKeys.pub
 //@   preserves [C18.msgstate.send] c.msgState, c.theirKey, c.ake, c.version, c.Policies, c.keys.ourKeyID, c.keys.theirKeyID
 //@   ensures [C18.send.finished,C03.send.finished] (hasPol(c, allowV2) || hasPol(c, allowV3)) && !c.debug && old(c.msgState) == finished ==> (result1 != nil && len(result0) == len(old(c.injections.messages)) && msglog(c) == evpush(old(msglog(c)), uint64(MessageEventConnectionEnded)) && c.resend.messages.m === old(c.resend.messages.m))
 //@   ensures [C16.disabled.send] (!hasPol(c, allowV2) && !hasPol(c, allowV3)) ==> (result1 == nil && len(result0) == 1 && len(result0[0]) == len(m) && c.resend.messages.m === old(c.resend.messages.m))
@@ -691,7 +701,7 @@ package otr3
 //@ func (*Conversation).End
 //@   requires convOK(c)
 //@   modifies anything
-//@   modifies seclog(c), msglog(c)
+//@   modifies seclog(c), msglog(c), serialized(c)
 //@   preserves [C18.end.frame,C15.end.frame] c.theirKey, c.version, c.Policies, c.ourCurrentKey, c.theirInstanceTag
 //@   ensures [C18.end.state] c.msgState == plainText && c.ake == nil
 //@   ensures [C07.end.timestamp,C18.end.timestamp] c.lastMessageStateChange.wall == 0 && c.lastMessageStateChange.ext == 0 && c.lastMessageStateChange.loc == nil
@@ -711,6 +721,7 @@ package otr3
 //@   ensures [C08.finish.ake] c.ake.secretExponent === nil && c.ake.revealKey.c === nil && c.ake.sigKey.c === nil && c.ake.revealKey.m1 === nil && c.ake.sigKey.m1 === nil
 //@   ensures [C04.finish.keyid,C01.install.keyid] result == nil ==> c.keys.ourKeyID == old(c.ake.keys.ourKeyID) + 1 && c.keys.theirKeyID == old(c.ake.keys.theirKeyID)
 //@   ensures [C01.install.their] c.keys.theirCurrentDHPubKey == old(c.ake.keys.theirCurrentDHPubKey)
+//@   ensures [C19.finish.oldmac,C09.finish.oldmac] c.keys.oldMACKeys === old(c.ake.keys.oldMACKeys) && c.keys.macKeyHistory.items === old(c.ake.keys.macKeyHistory.items)
 //@   ensures [C01.install.our] result == nil ==> (c.keys.ourPreviousDHKeys.priv === old(c.ake.keys.ourCurrentDHKeys.priv) && c.keys.ourPreviousDHKeys.pub == old(c.ake.keys.ourCurrentDHKeys.pub))
 
 // ---------------------------------------------------------------------------
@@ -1001,6 +1012,7 @@ package otr3
 // ---------------------------------------------------------------------------
 // SMP (C11, C12)
 // ---------------------------------------------------------------------------
+//@ define encOK(c) = c.msgState == encrypted ==> (c.version != nil && c.ourCurrentKey != nil && c.theirKey != nil && payloadNonNil(c.theirKey))
 //@ define isExp1(s) = typeis(s, smpStateExpect1)
 //@ define isExp2(s) = typeis(s, smpStateExpect2)
 //@ define isExp3(s) = typeis(s, smpStateExpect3)
@@ -1027,11 +1039,13 @@ package otr3
 //@   pure
 //@   mayglobal g, x
 //@   ensures result != nil && fresh(result) && val(result) == powmod(val(g), val(x), val(p))
+//@   ensures [C12.modexp.unit] unitp(val(g)) ==> unitp(val(result))
 //@ func mulMod
 //@   requires l != nil && r != nil && m != nil && val(m) != 0
 //@   pure
 //@   mayglobal l, r, m
 //@   ensures result != nil && fresh(result) && val(result) == (val(l) * val(r)) % val(m)
+//@   ensures [C12.mulmod.unit] (val(m) == val(p) && unitp(val(l)) && unitp(val(r))) ==> unitp(val(result))
 //@ func divMod
 //@   requires l != nil && r != nil && m != nil && val(m) != 0 && hasinv(val(r), val(m))
 //@   pure
@@ -1046,10 +1060,12 @@ package otr3
 //@ func (*Conversation).verifySMP3ProtocolSuccess
 //@   requires c != nil && s2 != nil && msg.pa != nil && msg.ra != nil && s2.pb != nil && s2.b3 != nil && hasinv(val(s2.pb), val(p))
 //@   pure
+//@   ghostset smpok(nil) = (result == nil)
 //@   ensures [C11.final.3] (result == nil) <==> (powmod(val(msg.ra), val(s2.b3), val(p)) == (val(msg.pa) * invmod(val(s2.pb), val(p))) % val(p))
 //@ func (*Conversation).verifySMP4ProtocolSuccess
 //@   requires c != nil && s1 != nil && s3 != nil && msg.rb != nil && s1.a3 != nil && s3.papb != nil
 //@   pure
+//@   ghostset smpok(nil) = (result == nil)
 //@   ensures [C11.final.4] (result == nil) <==> (powmod(val(msg.rb), val(s1.a3), val(p)) == val(s3.papb))
 
 //@ func (*Conversation).verifySMP1
@@ -1085,28 +1101,310 @@ package otr3
 //@   modifies smplog(c)
 //@   ensures [C12.cheated] isExp1(result0) && isAbortMsg(result1) && result2 == nil && smplog(c) == evpush(old(smplog(c)), uint64(SMPEventCheated))
 
-//@ func (smpStateExpect3).receiveMessage3
-//@   requires c != nil && c.version != nil && c.smp.s2 != nil
-//@   modifies anything
-//@   modifies smplog(c)
-//@   preserves [C12.exp3.frame] c.msgState, c.theirKey, c.version, c.keys.ourKeyID, c.keys.theirKeyID, c.ake
-//@   ensures [C12.table.exp3.msg3] isExp1(result0)
-//@ func (smpStateExpect4).receiveMessage4
-//@   requires c != nil && c.version != nil && c.smp.s1 != nil && c.smp.s3 != nil
-//@   modifies anything
-//@   modifies smplog(c)
-//@   preserves [C12.exp4.frame] c.msgState, c.theirKey, c.version, c.keys.ourKeyID, c.keys.theirKeyID, c.ake
-//@   ensures [C12.table.exp4.msg4] isExp1(result0)
-
 //@ func (*smp).ensureSMP
 //@   requires s != nil
 //@   modifies s.state
-//@   ensures [C12.state.nonnil.ensure] s.state != nil && (old(s.state) != nil ==> s.state == old(s.state)) && (old(s.state) == nil ==> isExp1(s.state))
+//@   ensures [C12.state.nonnil.ensure] s.state != nil && (old(s.state) != nil ==> s.state === old(s.state)) && (old(s.state) == nil ==> isExp1(s.state))
 //@ func (*Conversation).continueSMP
 //@   requires c != nil && encOK(c)
+//@   requires [C12.continuesmp.pre] smpInv(c)
+//@   ensures [C12.continuesmp.inv] c.smp.state != nil && smpInv(c)
+//@   ensures [C12.continuesmp.table] (old(c.smp.state) != nil && !isWaitSecret(old(c.smp.state))) ==> (result1 == errNotWaitingForSMPSecret && isExp1(c.smp.state))
+//@   ensures [C11.continuesmp.answered,C12.continuesmp.answered] (isWaitSecret(old(c.smp.state)) && c.msgState == encrypted) ==> (result1 == nil && (isExp3(c.smp.state) || (isExp1(c.smp.state) && smplog(c) == evpush(old(smplog(c)), uint64(SMPEventCheated)))))
+//@   ensures [C12.continuesmp.tlv] result1 == nil ==> (result0 != nil && fresh(result0) && nonglobal(result0.tlvValue))
 //@   modifies anything
 //@   modifies smplog(c)
 //@   ensures [C12.continue.err] result1 != nil ==> result0 == nil
+
+
+// ---------------------------------------------------------------------------
+// SMP under contract (C11, C12, C13): arithmetic helpers, message generation and verification, TLV
+// forms, the state machine cells, the dispatchers and the three API entry points.  unitp(x): x is a
+// unit modulo the fixed prime p.  The three axioms are number theory over that prime (trusted).
+// ---------------------------------------------------------------------------
+//@ ghostfn unitp(Int) Bool
+//@ axiom forallint x :: (2 <= x && x <= val(pMinusTwo)) ==> unitp(x)
+//@ axiom forallint x :: unitp(x) ==> hasinv(x, val(p))
+//@ axiom forallint g, x :: unitp(g) ==> unitp(powmod(g, x, val(p)))
+//@ axiom forallint a, b :: (unitp(a) && unitp(b)) ==> unitp((a * b) % val(p))
+//@ ghoststate zkpok Bool
+//@ ghoststate smpok Bool
+
+//@ func mul
+//@   requires l != nil && r != nil
+//@   pure
+//@   mayglobal l, r
+//@   ensures result != nil && fresh(result) && val(result) == val(l) * val(r)
+//@ func subMod
+//@   requires l != nil && r != nil && m != nil && val(m) != 0
+//@   pure
+//@   mayglobal l, r, m
+//@   ensures result != nil && fresh(result)
+//@ define allNonNil(xs) = forall k in 0..len(xs) :: xs[k] != nil
+//@ func firstError
+//@   pure
+//@   ensures [C13.firsterror] result == nil ==> (forall k in 0..len(es) :: es[k] == nil)
+//@ loop firstError #0
+//@   invariant forall k in 0..rangeindex+1 :: es[k] == nil
+//@ func hashMPIsBN
+//@   requires h != nil && allNonNil(mpis)
+//@   mayglobal mpis
+//@   modifies hacc(h)
+//@   ensures result != nil && fresh(result)
+//@ func generateDZKP
+//@   requires r != nil && a != nil && c != nil
+//@   pure
+//@   mayglobal r, a, c
+//@   ensures result != nil && fresh(result)
+//@ func generateZKP
+//@   requires r != nil && a != nil && v != nil
+//@   pure
+//@   ensures c != nil && d != nil && fresh(c) && fresh(d)
+//@ func verifyZKP
+//@   requires d != nil && gen != nil && c != nil && v != nil
+//@   pure
+//@ func verifyZKP2
+//@   requires g2 != nil && g3 != nil && d5 != nil && d6 != nil && pb != nil && qb != nil && cp != nil && v != nil
+//@   pure
+//@ func verifyZKP3
+//@   requires cp != nil && g2 != nil && g3 != nil && d5 != nil && d6 != nil && pa != nil && qa != nil && v != nil
+//@   pure
+//@ func verifyZKP4
+//@   requires cr != nil && g3a != nil && d7 != nil && qaqb != nil && ra != nil && v != nil
+//@   pure
+//@ func (*Conversation).randMPI
+//@   requires c != nil
+//@   modifies elems(buf)
+//@   ensures [C13.rand.mpi] (result1 == nil) ==> (result0 != nil && fresh(result0))
+//@   ensures result1 != nil ==> result0 == nil
+
+//@ define m1OK(m) = nonglobal(m) && m.g2a != nil && m.g3a != nil && m.c2 != nil && m.c3 != nil && m.d2 != nil && m.d3 != nil
+//@ define m2OK(m) = nonglobal(m) && m.g2b != nil && m.g3b != nil && m.c2 != nil && m.c3 != nil && m.d2 != nil && m.d3 != nil && m.pb != nil && m.qb != nil && m.cp != nil && m.d5 != nil && m.d6 != nil
+//@ define m3OK(m) = nonglobal(m) && m.pa != nil && m.qa != nil && m.cp != nil && m.d5 != nil && m.d6 != nil && m.d7 != nil && m.ra != nil && m.cr != nil
+//@ define m4OK(m) = nonglobal(m) && m.cr != nil && m.d7 != nil && m.rb != nil
+//@ define m1Group(m) = inGroup(m.g2a) && inGroup(m.g3a)
+//@ define m2Group(m) = inGroup(m.g2b) && inGroup(m.g3b) && inGroup(m.pb) && inGroup(m.qb)
+//@ define s1OK(s) = s != nil && s.a2 != nil && s.a3 != nil
+//@ define s2Shape(s) = s != nil && s.b3 != nil && s.g2 != nil && s.g3 != nil && s.g3a != nil && s.pb != nil && s.qb != nil
+//@ define s2OK(s) = s2Shape(s) && unitp(val(s.pb)) && unitp(val(s.qb))
+//@ define s3OK(s) = s != nil && s.g3b != nil && s.qaqb != nil && s.papb != nil
+//@ define waitMsg(st) = unbox(st, smpStateWaitingForSecret).msg
+//@ define smpShape(c) = (isExp2(c.smp.state) ==> (s1OK(c.smp.s1) && c.smp.secret != nil)) && (isExp3(c.smp.state) ==> (s2Shape(c.smp.s2) && c.smp.secret != nil)) && (isExp4(c.smp.state) ==> (s1OK(c.smp.s1) && s3OK(c.smp.s3))) && (isWaitSecret(c.smp.state) ==> m1OK(waitMsg(c.smp.state)))
+//@ define smpVals(c) = (isExp3(c.smp.state) ==> (unitp(val(c.smp.s2.pb)) && unitp(val(c.smp.s2.qb)))) && (isWaitSecret(c.smp.state) ==> m1Group(waitMsg(c.smp.state)))
+//@ define smpInv(c) = smpShape(c) && smpVals(c)
+
+//@ func (*Conversation).generateSMP1Parameters
+//@   requires c != nil && c.version != nil
+//@   pure
+//@   ensures err == nil ==> (s.a2 != nil && s.a3 != nil && s.r2 != nil && s.r3 != nil)
+//@ func generateSMP1Message
+//@   requires s.a2 != nil && s.a3 != nil && s.r2 != nil && s.r3 != nil && v != nil
+//@   pure
+//@   ensures m1OK(m) && !m.hasQuestion
+//@ func (*Conversation).generateSMP1
+//@   requires c != nil && c.version != nil
+//@   pure
+//@   ensures [C13.smp.gen1] err == nil ==> (s.a2 != nil && s.a3 != nil && m1OK(s.msg) && !s.msg.hasQuestion)
+//@ func (*Conversation).generateSMP2Parameters
+//@   requires c != nil && c.version != nil
+//@   pure
+//@   ensures err == nil ==> (s.b2 != nil && s.b3 != nil && s.r2 != nil && s.r3 != nil && s.r4 != nil && s.r5 != nil && s.r6 != nil)
+//@ func generateSMP2Message
+//@   requires s != nil && s.b2 != nil && s.b3 != nil && s.r2 != nil && s.r3 != nil && s.r4 != nil && s.r5 != nil && s.r6 != nil && s.y != nil && v != nil
+//@   requires m1OK(s1) && unitp(val(s1.g2a)) && unitp(val(s1.g3a))
+//@   modifies s.g3a, s.g2, s.g3, s.pb, s.qb
+//@   ensures m2OK(result) && s.g3a == s1.g3a && s.g2 != nil && s.g3 != nil && s.pb != nil && s.qb != nil
+//@   ensures [C12.smp2.units.pb] unitp(val(s.pb))
+//@   ensures [C12.smp2.units.qb] unitp(val(s.qb))
+//@ func (*Conversation).generateSMP2
+//@   requires c != nil && c.version != nil && secret != nil && m1OK(s1) && m1Group(s1)
+//@   pure
+//@   ensures [C13.smp.gen2] err == nil ==> (s.b3 != nil && s.g2 != nil && s.g3 != nil && s.g3a != nil && s.pb != nil && s.qb != nil && unitp(val(s.pb)) && unitp(val(s.qb)) && m2OK(s.msg) && s.y == secret)
+//@ func (*Conversation).generateSMP3Parameters
+//@   requires c != nil && c.version != nil
+//@   pure
+//@   ensures err == nil ==> (s.r4 != nil && s.r5 != nil && s.r6 != nil && s.r7 != nil)
+//@ func generateSMP3Message
+//@   requires s != nil && s.r4 != nil && s.r5 != nil && s.r6 != nil && s.r7 != nil && s.x != nil && v != nil
+//@   requires s1.a2 != nil && s1.a3 != nil && m2OK(m2) && unitp(val(m2.qb)) && unitp(val(m2.pb))
+//@   modifies s.g3b, s.qaqb, s.papb
+//@   ensures m3OK(result) && s.g3b == m2.g3b && s.qaqb != nil && s.papb != nil
+//@ func (*Conversation).generateSMP3
+//@   requires c != nil && c.version != nil && secret != nil && s1.a2 != nil && s1.a3 != nil && m2OK(m2) && m2Group(m2)
+//@   pure
+//@   ensures [C13.smp.gen3] err == nil ==> (s.g3b != nil && s.qaqb != nil && s.papb != nil && m3OK(s.msg))
+//@ func (*Conversation).generateSMP4Parameters
+//@   requires c != nil && c.version != nil
+//@   pure
+//@   ensures err == nil ==> s.r7 != nil
+//@ func generateSMP4Message
+//@   requires s.r7 != nil && s2.b3 != nil && s2.qb != nil && unitp(val(s2.qb)) && msg3.qa != nil && v != nil
+//@   pure
+//@   ensures m4OK(result)
+//@ func (*Conversation).generateSMP4
+//@   requires c != nil && c.version != nil && s2.b3 != nil && s2.qb != nil && unitp(val(s2.qb)) && msg3.qa != nil
+//@   pure
+//@   ensures [C13.smp.gen4] err == nil ==> m4OK(s.msg)
+
+//@ func (*Conversation).verifySMP3
+//@   requires c != nil && c.version != nil && s2OK(s2) && m3OK(msg)
+//@   ghostset zkpok(nil) = (result == nil)
+//@   ensures [C12.group.3] result == nil ==> (inGroup(msg.pa) && inGroup(msg.qa) && inGroup(msg.ra))
+//@ func (*Conversation).verifySMP4
+//@   requires c != nil && c.version != nil && s3OK(s3) && m4OK(msg)
+//@   ghostset zkpok(nil) = (result == nil)
+//@   ensures [C12.group.4] result == nil ==> inGroup(msg.rb)
+
+// TLV forms of the five messages
+//@ func AppendMPIs
+//@   requires allNonNil(r)
+//@   mayglobal r
+//@   modifies elems(l)
+//@   ensures [C17.appendmpis.prefix,C10.appendmpis.prefix] len(result) >= len(l) && (sbaseSame(result, l) || fresh(result))
+//@ loop AppendMPIs #0
+//@   invariant len(l) >= len(l0) && (sbaseSame(l, l0) || fresh(l))
+//@ func genSMPTLV
+//@   requires allNonNil(mpis)
+//@   pure
+//@   mayglobal mpis
+//@   ensures [C17.smptlv.type,C10.smptlv.type] result.tlvType == tp && nonglobal(result.tlvValue) && len(result.tlvValue) >= 4
+//@ func (smp1Message).tlv
+//@   requires m1OK(m)
+//@   pure
+//@   ensures [C17.smp1.type,C10.smp1.type] (m.hasQuestion ==> result.tlvType == tlvTypeSMP1WithQuestion) && (!m.hasQuestion ==> result.tlvType == tlvTypeSMP1) && nonglobal(result.tlvValue)
+//@ func (smp2Message).tlv
+//@   requires m2OK(m)
+//@   pure
+//@   ensures [C17.smp2.type,C10.smp2.type] result.tlvType == tlvTypeSMP2 && nonglobal(result.tlvValue)
+//@ func (smp3Message).tlv
+//@   requires m3OK(m)
+//@   pure
+//@   ensures [C17.smp3.type,C10.smp3.type] result.tlvType == tlvTypeSMP3 && nonglobal(result.tlvValue)
+//@ func (smp4Message).tlv
+//@   requires m4OK(m)
+//@   pure
+//@   ensures [C17.smp4.type,C10.smp4.type] result.tlvType == tlvTypeSMP4 && nonglobal(result.tlvValue)
+//@ func (smpMessageAbort).tlv
+//@   pure
+//@   ensures [C17.smpabort.type,C10.smpabort.type] result.tlvType == tlvTypeSMPAbort && nonglobal(result.tlvValue)
+
+// well-formedness of an SMP message as an interface value (what the parsers hand to the state machine)
+//@ define msgOK(m) = (typeis(m, smp1Message) ==> m1OK(unbox(m, smp1Message))) && (typeis(m, smp2Message) ==> m2OK(unbox(m, smp2Message))) && (typeis(m, smp3Message) ==> m3OK(unbox(m, smp3Message))) && (typeis(m, smp4Message) ==> m4OK(unbox(m, smp4Message)))
+
+//@ func (*Conversation).receiveSMP
+//@   requires c != nil && c.version != nil && c.smp.state != nil && m != nil && msgOK(m) && smpInv(c) && encOK(c)
+//@   modifies anything
+//@   modifies smplog(c), zkpok(nil), smpok(nil)
+//@   preserves [C12.receivesmp.frame] c.msgState, c.theirKey, c.version, c.keys.ourKeyID, c.keys.theirKeyID, c.ake, c.Policies, c.ourCurrentKey
+//@   ensures [C12.receivesmp.inv] c.smp.state != nil && smpInv(c)
+//@   ensures result1 != nil ==> result0 == nil
+//@   ensures result0 != nil ==> (fresh(result0) && nonglobal(result0.tlvValue))
+
+//@ func (smp1Message).receivedMessage
+//@   requires c != nil && c.version != nil && c.smp.state != nil && m1OK(m) && smpInv(c)
+//@   modifies anything
+//@   modifies smplog(c)
+//@   preserves [C12.recv1.frame] c.msgState, c.theirKey, c.version, c.keys.ourKeyID, c.keys.theirKeyID, c.ake, c.Policies, c.ourCurrentKey, c.smp.s1, c.smp.s2, c.smp.s3, c.smp.secret
+//@   ensures [C12.recv1.inv] c.smp.state != nil && smpInv(c)
+//@   ensures [C12.table.msg1] !isExp1(old(c.smp.state)) ==> (isExp1(c.smp.state) && isAbortMsg(ret) && err == nil && smplog(c) == evpush(old(smplog(c)), uint64(SMPEventError)))
+//@   ensures [C12.recv1.ret] ret != nil ==> isAbortMsg(ret)
+//@ func (smp2Message).receivedMessage
+//@   requires c != nil && c.version != nil && c.smp.state != nil && m2OK(m) && smpInv(c)
+//@   modifies anything
+//@   modifies smplog(c)
+//@   preserves [C12.recv2.frame] c.msgState, c.theirKey, c.version, c.keys.ourKeyID, c.keys.theirKeyID, c.ake, c.Policies, c.ourCurrentKey, c.smp.s1, c.smp.s2, c.smp.secret
+//@   ensures [C12.recv2.inv] c.smp.state != nil && smpInv(c)
+//@   ensures [C12.table.msg2] !isExp2(old(c.smp.state)) ==> (isExp1(c.smp.state) && isAbortMsg(ret) && err == nil && smplog(c) == evpush(old(smplog(c)), uint64(SMPEventError)))
+//@   ensures [C12.recv2.ret] ret != nil ==> (isAbortMsg(ret) || (typeis(ret, smp3Message) && m3OK(unbox(ret, smp3Message))))
+//@ func (smp3Message).receivedMessage
+//@   requires c != nil && c.version != nil && c.smp.state != nil && m3OK(m) && smpInv(c)
+//@   modifies anything
+//@   modifies smplog(c), zkpok(nil), smpok(nil)
+//@   preserves [C12.recv3.frame] c.msgState, c.theirKey, c.version, c.keys.ourKeyID, c.keys.theirKeyID, c.ake, c.Policies, c.ourCurrentKey
+//@   ensures [C12.recv3.inv] c.smp.state != nil && smpInv(c)
+//@   ensures [C12.table.msg3] !isExp3(old(c.smp.state)) ==> (isExp1(c.smp.state) && isAbortMsg(ret) && err == nil && smplog(c) == evpush(old(smplog(c)), uint64(SMPEventError)))
+//@   ensures [C12.recv3.ret] ret != nil ==> (isAbortMsg(ret) || (typeis(ret, smp4Message) && m4OK(unbox(ret, smp4Message))))
+//@ func (smp4Message).receivedMessage
+//@   requires c != nil && c.version != nil && c.smp.state != nil && m4OK(m) && smpInv(c)
+//@   modifies anything
+//@   modifies smplog(c), zkpok(nil), smpok(nil)
+//@   preserves [C12.recv4.frame] c.msgState, c.theirKey, c.version, c.keys.ourKeyID, c.keys.theirKeyID, c.ake, c.Policies, c.ourCurrentKey
+//@   ensures [C12.recv4.inv] c.smp.state != nil && smpInv(c)
+//@   ensures [C12.table.msg4] !isExp4(old(c.smp.state)) ==> (isExp1(c.smp.state) && isAbortMsg(ret) && err == nil && smplog(c) == evpush(old(smplog(c)), uint64(SMPEventError)))
+//@   ensures [C12.recv4.ret] ret != nil ==> isAbortMsg(ret)
+//@ func (smpMessageAbort).receivedMessage
+//@   requires c != nil
+//@   modifies c.smp.state, smplog(c)
+//@   ensures [C12.table.abort] isExp1(c.smp.state) && ret == nil && err == nil && smplog(c) == evpush(old(smplog(c)), uint64(SMPEventAbort))
+
+// the five proper cells
+//@ func (smpStateExpect1).receiveMessage1
+//@   requires c != nil && c.version != nil && m1OK(m)
+//@   modifies c.smp.question, smplog(c)
+//@   ensures [C12.table.exp1.msg1] result2 == nil && ((isWaitSecret(result0) && result1 == nil && m1OK(waitMsg(result0)) && m1Group(waitMsg(result0))) || (isExp1(result0) && isAbortMsg(result1) && smplog(c) == evpush(old(smplog(c)), uint64(SMPEventCheated))))
+//@ func (smpStateExpect2).receiveMessage2
+//@   requires c != nil && c.version != nil && s1OK(c.smp.s1) && c.smp.secret != nil && m2OK(m)
+//@   modifies c.smp.s3, smplog(c)
+//@   ensures [C12.table.exp2.msg2] result2 == nil && ((isExp4(result0) && s3OK(c.smp.s3) && typeis(result1, smp3Message) && m3OK(unbox(result1, smp3Message))) || (isExp1(result0) && isAbortMsg(result1) && smplog(c) == evpush(old(smplog(c)), uint64(SMPEventCheated))))
+//@ define eq3(s2, m) = powmod(val(m.ra), val(s2.b3), val(p)) == (val(m.pa) * invmod(val(s2.pb), val(p))) % val(p)
+//@ define eq4(s1, s3, m) = powmod(val(m.rb), val(s1.a3), val(p)) == val(s3.papb)
+//@ func (smpStateExpect3).receiveMessage3
+//@   requires c != nil && c.version != nil && s2OK(c.smp.s2) && c.smp.secret != nil && m3OK(m)
+//@   modifies anything
+//@   modifies smplog(c), zkpok(nil), smpok(nil)
+//@   preserves [C12.exp3.frame] c.msgState, c.theirKey, c.version, c.keys.ourKeyID, c.keys.theirKeyID, c.ake
+//@   ensures [C12.table.exp3.msg3] isExp1(result0) && result2 == nil
+//@   ensures [C11.gate.cheat.3,C12.gate.cheat.3] !zkpok(nil) ==> (isAbortMsg(result1) && smplog(c) == evpush(old(smplog(c)), uint64(SMPEventCheated)))
+//@   ensures [C11.gate.eq.3] zkpok(nil) ==> (smpok(nil) <==> old(eq3(c.smp.s2, m)))
+//@   ensures [C11.gate.fail.3] (zkpok(nil) && !smpok(nil)) ==> (isAbortMsg(result1) && smplog(c) == evpush(old(smplog(c)), uint64(SMPEventFailure)))
+//@   ensures [C11.gate.success.3] (zkpok(nil) && smpok(nil)) ==> ((typeis(result1, smp4Message) && m4OK(unbox(result1, smp4Message)) && smplog(c) == evpush(old(smplog(c)), uint64(SMPEventSuccess))) || (isAbortMsg(result1) && smplog(c) == evpush(evpush(old(smplog(c)), uint64(SMPEventSuccess)), uint64(SMPEventCheated))))
+//@ func (smpStateExpect4).receiveMessage4
+//@   requires c != nil && c.version != nil && s1OK(c.smp.s1) && s3OK(c.smp.s3) && m4OK(m)
+//@   modifies anything
+//@   modifies smplog(c), zkpok(nil), smpok(nil)
+//@   preserves [C12.exp4.frame] c.msgState, c.theirKey, c.version, c.keys.ourKeyID, c.keys.theirKeyID, c.ake
+//@   ensures [C12.table.exp4.msg4] isExp1(result0) && result2 == nil
+//@   ensures [C11.gate.cheat.4,C12.gate.cheat.4] !zkpok(nil) ==> (isAbortMsg(result1) && smplog(c) == evpush(old(smplog(c)), uint64(SMPEventCheated)))
+//@   ensures [C11.gate.eq.4] zkpok(nil) ==> (smpok(nil) <==> old(eq4(c.smp.s1, c.smp.s3, m)))
+//@   ensures [C11.gate.fail.4] (zkpok(nil) && !smpok(nil)) ==> (isAbortMsg(result1) && smplog(c) == evpush(old(smplog(c)), uint64(SMPEventFailure)))
+//@   ensures [C11.gate.success.4] (zkpok(nil) && smpok(nil)) ==> (result1 == nil && smplog(c) == evpush(old(smplog(c)), uint64(SMPEventSuccess)))
+
+//@ func (*Conversation).continueMessage
+//@   requires c != nil && c.smp.state != nil && encOK(c) && smpInv(c)
+//@   modifies c.smp.state, c.smp.secret, c.smp.s2, smplog(c)
+//@   ensures [C12.continue.inv] c.smp.state != nil && smpInv(c)
+//@   ensures [C12.continue.ret] err == nil ==> (ret != nil && msgOK(ret))
+//@   ensures [C12.table.continue] !isWaitSecret(old(c.smp.state)) ==> (isExp1(c.smp.state) && err == errNotWaitingForSMPSecret)
+//@   ensures [C11.continue.answered,C12.continue.answered] (isWaitSecret(old(c.smp.state)) && c.msgState == encrypted) ==> (err == nil && (isExp3(c.smp.state) || (isExp1(c.smp.state) && smplog(c) == evpush(old(smplog(c)), uint64(SMPEventCheated)))))
+
+//@ func (*Conversation).restartSMP
+//@   requires c != nil
+//@   modifies c.smp.state
+//@   ensures [C12.abort.state] isExp1(c.smp.state) && result.tlvType == tlvTypeSMPAbort && nonglobal(result.tlvValue)
+
+// the three API entry points; convOK, encOK and smpInv are representation invariants of a Conversation
+//@ func (*Conversation).StartAuthenticate
+//@   modifies serialized(c)
+//@   requires convOK(c) && encOK(c) && smpInv(c)
+//@   modifies anything
+//@   preserves [C18.msgstate.smpstart] c.msgState, c.theirKey, c.ake, c.version, c.Policies, c.keys.ourKeyID, c.keys.theirKeyID
+//@   ensures [C12.api.start.inv] c.smp.state != nil && smpInv(c)
+//@   ensures [C11.api.start.unencrypted,C12.api.start.unencrypted] old(c.msgState) != encrypted ==> (result1 != nil && result0 === nil)
+//@ func (*Conversation).ProvideAuthenticationSecret
+//@   modifies serialized(c)
+//@   requires convOK(c) && encOK(c) && smpInv(c)
+//@   modifies anything
+//@   modifies smplog(c)
+//@   preserves [C18.msgstate.smpprovide] c.msgState, c.theirKey, c.ake, c.version, c.Policies, c.keys.ourKeyID, c.keys.theirKeyID
+//@   ensures [C12.api.provide.inv] c.smp.state != nil && smpInv(c)
+//@   ensures [C11.api.provide.notwaiting,C12.api.provide.notwaiting] (old(c.smp.state) != nil && !isWaitSecret(old(c.smp.state))) ==> (result1 == errNotWaitingForSMPSecret && result0 === nil && isExp1(c.smp.state))
+//@   ensures [C11.api.provide.answered,C12.api.provide.answered] (isWaitSecret(old(c.smp.state)) && c.msgState == encrypted) ==> (isExp3(c.smp.state) || (isExp1(c.smp.state) && smplog(c) == evpush(old(smplog(c)), uint64(SMPEventCheated))))
+//@ func (*Conversation).AbortAuthentication
+//@   modifies serialized(c)
+//@   requires convOK(c)
+//@   modifies anything
+//@   preserves [C18.msgstate.smpabort] c.msgState, c.theirKey, c.ake, c.version, c.Policies, c.keys.ourKeyID, c.keys.theirKeyID
+//@   ensures [C12.api.abort.state] isExp1(c.smp.state)
 
 // ---------------------------------------------------------------------------
 // reception of data messages (C02, C05, C06)
@@ -1115,9 +1413,14 @@ package otr3
 //@   requires [C02.tlv.after.auth,C05.tlv.after.counter] c != nil && macok(nil) && ctrok(nil)
 //@   requires akeInv(c)
 //@   requires [C13.tlv.wellformed] tlvsOK(tlvs)
+//@   requires [C12.tlv.smp.pre.version] c.version != nil
+//@   requires [C12.tlv.smp.pre.enc] encOK(c)
+//@   requires [C12.tlv.smp.pre] smpShape(c)
+//@   requires [C12.tlv.smp.pre.vals] smpVals(c)
+//@   ensures [C12.tlv.smp.inv] smpInv(c)
 //@   ensures [C07.tlv.inv] akeInv(c)
 //@   modifies anything
-//@   modifies seclog(c), msglog(c), smplog(c), kmcWiped(addr(c.keys)), keysWiped(addr(c.keys)), akeWiped(c.ake), akeKeysWiped(c.ake), kmcWiped(addr(c.ake.keys)), keysWiped(addr(c.ake.keys))
+//@   modifies seclog(c), msglog(c), smplog(c), zkpok(nil), smpok(nil), kmcWiped(addr(c.keys)), keysWiped(addr(c.keys)), akeWiped(c.ake), akeKeysWiped(c.ake), kmcWiped(addr(c.ake.keys)), keysWiped(addr(c.ake.keys))
 //@   ensures nonglobal(result0)
 //@   ensures result1 != nil ==> result0 === nil
 
@@ -1128,10 +1431,11 @@ package otr3
 
 //@ func (*Conversation).processDataMessageWithRawErrors
 //@   requires convOK(c) && akeInv(c)
+//@   requires [C12.data.smp.pre.processDataMessageWithRawErrors] smpInv(c) && encOK(c)
 //@   ensures [C07.data.inv.raw] akeInv(c)
 //@   ensures [C04.data.convok.raw] plain !== nil ==> convOK(c)
 //@   modifies anything
-//@   modifies macok(nil), mackey(nil), ctrok(nil), seclog(c), msglog(c), smplog(c), kmcWiped(addr(c.keys)), keysWiped(addr(c.keys)), akeWiped(c.ake), akeKeysWiped(c.ake), kmcWiped(addr(c.ake.keys)), keysWiped(addr(c.ake.keys))
+//@   modifies macok(nil), mackey(nil), ctrok(nil), seclog(c), msglog(c), smplog(c), zkpok(nil), smpok(nil), kmcWiped(addr(c.keys)), keysWiped(addr(c.keys)), akeWiped(c.ake), akeKeysWiped(c.ake), kmcWiped(addr(c.ake.keys)), keysWiped(addr(c.ake.keys))
 //@   ensures [C05.accept.fresh] plain !== nil ==> ctrok(nil)
 //@   ensures [C05.accept.fresh.tosend] toSend !== nil ==> ctrok(nil)
 //@   ensures [C02.accept.plain] plain !== nil ==> (macok(nil) && old(c.msgState) == encrypted)
@@ -1144,24 +1448,29 @@ package otr3
 
 //@ func (*Conversation).processDataMessage
 //@   requires convOK(c) && akeInv(c)
+//@   requires [C12.data.smp.pre.processDataMessage] smpInv(c) && encOK(c)
 //@   ensures [C07.data.inv] akeInv(c)
 //@   ensures [C04.data.convok] plain !== nil ==> convOK(c)
 //@   modifies anything
-//@   modifies macok(nil), mackey(nil), ctrok(nil), seclog(c), msglog(c), smplog(c), kmcWiped(addr(c.keys)), keysWiped(addr(c.keys)), akeWiped(c.ake), akeKeysWiped(c.ake), kmcWiped(addr(c.ake.keys)), keysWiped(addr(c.ake.keys))
+//@   modifies macok(nil), mackey(nil), ctrok(nil), seclog(c), msglog(c), smplog(c), zkpok(nil), smpok(nil), kmcWiped(addr(c.keys)), keysWiped(addr(c.keys)), akeWiped(c.ake), akeKeysWiped(c.ake), kmcWiped(addr(c.ake.keys)), keysWiped(addr(c.ake.keys))
 //@   ensures [C05.accept.fresh.flag] plain !== nil ==> ctrok(nil)
 //@   ensures [C02.accept.plain.flag] plain !== nil ==> (macok(nil) && old(c.msgState) == encrypted)
 //@   ensures [C02.accept.tosend.flag] toSend !== nil ==> (macok(nil) && old(c.msgState) == encrypted)
 
 //@ func (*Conversation).processSMPTLV
-//@   opaque
 //@   requires c != nil
+//@   requires [C13.smptlv.len] int(t.tlvLength) <= len(t.tlvValue)
+//@   requires [C12.smptlv.pre] c.version != nil && smpInv(c) && encOK(c)
 //@   modifies anything
-//@   modifies smplog(c), msglog(c)
-//@   preserves [C12.smptlv.frame,C18.msgstate.smptlv] c.msgState, c.theirKey, c.version, c.keys.ourKeyID, c.keys.theirKeyID, c.ake, c.Policies
+//@   modifies smplog(c), msglog(c), zkpok(nil), smpok(nil)
+//@   preserves [C12.smptlv.frame,C18.msgstate.smptlv] c.msgState, c.theirKey, c.version, c.keys.ourKeyID, c.keys.theirKeyID, c.ake, c.Policies, c.ourCurrentKey
+//@   ensures [C12.smptlv.inv] c.smp.state != nil && smpInv(c)
+//@   ensures result1 != nil ==> result0 == nil
+//@   ensures result0 != nil ==> (fresh(result0) && nonglobal(result0.tlvValue))
 //@ func (*Conversation).processExtraSymmetricKeyTLV
 //@   requires c != nil && int(t.tlvLength) <= len(t.tlvValue)
 //@   modifies anything
-//@   preserves [C18.msgstate.extrakey] c.msgState, c.theirKey, c.version, c.keys.ourKeyID, c.keys.theirKeyID, c.ake, c.smp.state, c.Policies
+//@   preserves [C18.msgstate.extrakey] c.msgState, c.theirKey, c.version, c.keys.ourKeyID, c.keys.theirKeyID, c.ake, c.smp.state, c.Policies, c.smp.s1, c.smp.s2, c.smp.s3, c.smp.secret, c.ourCurrentKey
 //@   ensures result0 == nil && result1 == nil
 //@ func (*Conversation).processPaddingTLV
 //@   pure
@@ -1191,20 +1500,20 @@ package otr3
 //@   ensures !ok ==> (newPoint === nil && mpi == nil)
 //@ func ExtractMPIs
 //@   pure
-//@   ensures [C17.mpis.parse] result2 ==> (nonglobal(result1) && (forall k in 0..len(result1) :: result1[k] != nil))
+//@   ensures [C17.mpis.parse] result2 ==> (nonglobal(result1) && (forall k in 0..len(result1) :: (result1[k] != nil && nonglobal(result1[k]))))
 //@ loop ExtractMPIs #0
-//@   invariant nonglobal(result) && nonglobal(current) && len(result) == int(mpiCount) && (forall k in 0..i :: result[k] != nil)
+//@   invariant nonglobal(result) && nonglobal(current) && len(result) == int(mpiCount) && (forall k in 0..i :: (result[k] != nil && nonglobal(result[k])))
 // SMP TLV parsers: the SMP state machine (C12) and the round-trip property (C17) rely on their safety
 //@ func toSmpMessage1
-//@   ensures [C12.parse.smp1,C17.parse.smp1] true
+//@   ensures [C12.parse.smp1,C17.parse.smp1] ok ==> (m1OK(msg) && !msg.hasQuestion)
 //@ func toSmpMessage2
-//@   ensures [C12.parse.smp2,C17.parse.smp2] true
+//@   ensures [C12.parse.smp2,C17.parse.smp2] ok ==> m2OK(msg)
 //@ func toSmpMessage3
-//@   ensures [C12.parse.smp3,C17.parse.smp3] true
+//@   ensures [C12.parse.smp3,C17.parse.smp3] ok ==> m3OK(msg)
 //@ func toSmpMessage4
-//@   ensures [C12.parse.smp4,C17.parse.smp4] true
+//@   ensures [C12.parse.smp4,C17.parse.smp4] ok ==> m4OK(msg)
 //@ func (tlv).smpMessage
-//@   ensures [C12.parse.smp,C17.parse.smp] true
+//@   ensures [C12.parse.smp,C17.parse.smp] result1 ==> (result0 != nil && msgOK(result0))
 
 //@ define akeOKnokey(c) = c != nil && c.ake != nil && c.version != nil && keysNonNil(c)
 //@ func (*Conversation).sigMessage
@@ -1227,14 +1536,6 @@ package otr3
 //@   pure
 //@   ensures [C11.secret.term] result != nil && fresh(result) && val(result) == smpSecretTerm(bytes(initiatorFingerprint), bytes(recipientFingerprint), bytes(ssid), bytes(secret))
 
-//@ func (*Conversation).generateSMP1
-//@   opaque
-//@   requires c != nil
-//@   pure
-//@ func (*Conversation).generateSMP2
-//@   opaque
-//@   requires c != nil
-//@   pure
 //@ func (*DSAPublicKey).Fingerprint
 //@   opaque
 //@   requires pub != nil
@@ -1242,21 +1543,25 @@ package otr3
 //@   ensures nonglobal(result) && bytes(result) == fpterm(pub)
 
 //@ func (smpStateBase).startAuthenticate
-//@   requires c != nil && c.version != nil && c.ourCurrentKey != nil && c.theirKey != nil && payloadNonNil(c.theirKey)
+//@   requires c != nil && encOK(c)
 //@   modifies c.smp.secret, c.smp.s1, c.smp.state
 //@   ensures [C12.restart.abort.first,C11.restart.abort.first] err == nil ==> (len(tlvs) == 2 && tlvs[0].tlvType == tlvTypeSMPAbort)
 //@ func (smpStateExpect1).startAuthenticate
-//@   requires c != nil && c.version != nil && c.ourCurrentKey != nil && c.theirKey != nil && payloadNonNil(c.theirKey)
+//@   requires c != nil && encOK(c)
 //@   modifies c.smp.secret, c.smp.s1, c.smp.state
 //@   ensures [C12.start.fail] err != nil ==> (c.smp.state == old(c.smp.state) && c.smp.s1 == old(c.smp.s1))
 //@   ensures [C11.start.unencrypted,C12.start.unencrypted] c.msgState != encrypted ==> (err == errCantAuthenticateWithoutEncryption && c.smp.secret == old(c.smp.secret))
 //@   ensures [C12.start.ok] err == nil ==> (isExp2(c.smp.state) && c.smp.s1 != nil && len(tlvs) == 1)
+//@   ensures [C12.start.inv] err == nil ==> s1OK(c.smp.s1)
 //@   ensures [C11.secret.init.set] (c.msgState == encrypted) ==> (c.smp.secret != nil && fresh(c.smp.secret))
 //@   ensures [C11.secret.init] (c.msgState == encrypted && typeisptr(c.theirKey, DSAPublicKey)) ==> val(c.smp.secret) == smpSecretTerm(fpterm(pubref(iref(c.ourCurrentKey))), fpterm(iref(c.theirKey)), old(bytesof(c.ssid)), old(bytes(mutualSecret)))
 
-//@ define encOK(c) = c.msgState == encrypted ==> (c.version != nil && c.ourCurrentKey != nil && c.theirKey != nil && payloadNonNil(c.theirKey))
 //@ func (smpStateWaitingForSecret).continueMessage1
 //@   requires c != nil && encOK(c)
+//@   requires [C12.wait.msg] m1OK(s.msg) && m1Group(s.msg)
+//@   ensures [C11.wait.cheated,C12.wait.cheated] (c.msgState == encrypted && isExp1(result0)) ==> (result2 == nil && smplog(c) == evpush(old(smplog(c)), uint64(SMPEventCheated)))
+//@   ensures [C11.wait.answered] (c.msgState == encrypted && !isExp1(result0)) ==> (result2 == nil && isExp3(result0) && smplog(c) == old(smplog(c)))
+//@   ensures [C12.table.wait.continue] (isExp3(result0) && result2 == nil && s2OK(c.smp.s2) && c.smp.secret != nil && typeis(result1, smp2Message) && m2OK(unbox(result1, smp2Message))) || (isExp1(result0) && isAbortMsg(result1))
 //@   ensures [C12.continue.msg] result2 == nil ==> result1 != nil
 //@   modifies c.smp.secret, c.smp.s2, smplog(c)
 //@   ensures [C11.secret.resp.set] c.msgState == encrypted ==> (c.smp.secret != nil && fresh(c.smp.secret))
@@ -1300,8 +1605,9 @@ package otr3
 //@ func (*Conversation).receiveEncoded
 //@   preserves [C14.ctx.frame.receiveEncoded] c.fragmentationContext.currentIndex, c.fragmentationContext.currentLen, c.fragmentationContext.frag
 //@   requires convOK(c) && akeInv(c)
+//@   requires [C12.recv.smp.pre] smpInv(c) && encOK(c)
 //@   modifies anything
-//@   modifies macok(nil), mackey(nil), ctrok(nil), commitok(nil), akemacok(nil), sigok(nil), seclog(c), msglog(c), smplog(c), kmcWiped(addr(c.keys)), keysWiped(addr(c.keys)), akeWiped(c.ake), akeKeysWiped(c.ake), kmcWiped(addr(c.ake.keys)), keysWiped(addr(c.ake.keys))
+//@   modifies macok(nil), mackey(nil), ctrok(nil), commitok(nil), akemacok(nil), sigok(nil), seclog(c), msglog(c), smplog(c), zkpok(nil), smpok(nil), kmcWiped(addr(c.keys)), keysWiped(addr(c.keys)), akeWiped(c.ake), akeKeysWiped(c.ake), kmcWiped(addr(c.ake.keys)), keysWiped(addr(c.ake.keys))
 //@   ensures [C13.recv.version] (result2 == nil && len(result1) > 0) ==> c.version != nil
 //@   ensures [C07.recv.inv] akeInv(c)
 //@ func (*Conversation).toSendEncoded
@@ -1315,17 +1621,19 @@ package otr3
 // invariant at the API boundary) and the last two are re-established on every return.
 //@ func (*Conversation).Receive
 //@   requires convOK(c) && len(c.injections.messages) == 0 && akeInv(c) && !fragDone(c)
+//@   requires smpInv(c) && encOK(c)
 //@   modifies anything
-//@   modifies macok(nil), mackey(nil), ctrok(nil), commitok(nil), akemacok(nil), sigok(nil), seclog(c), msglog(c), smplog(c), kmcWiped(addr(c.keys)), keysWiped(addr(c.keys)), akeWiped(c.ake), akeKeysWiped(c.ake), kmcWiped(addr(c.ake.keys)), keysWiped(addr(c.ake.keys))
+//@   modifies macok(nil), mackey(nil), ctrok(nil), commitok(nil), akemacok(nil), sigok(nil), seclog(c), msglog(c), smplog(c), zkpok(nil), smpok(nil), kmcWiped(addr(c.keys)), keysWiped(addr(c.keys)), akeWiped(c.ake), akeKeysWiped(c.ake), kmcWiped(addr(c.ake.keys)), keysWiped(addr(c.ake.keys))
 //@   ensures [C19.receive.flushed] len(c.injections.messages) == 0
 //@   ensures [C14.receive.once] !fragDone(c)
 //@   ensures [C16.receive.disabled] (!old(hasPol(c, allowV2)) && !old(hasPol(c, allowV3))) ==> (err == nil && len(toSend) == 0 && len(plain) == len(m))
 //@ func (*Conversation).receiveUnit
 //@   requires convOK(c) && len(c.injections.messages) == 0
 //@   requires akeInv(c)
+//@   requires [C12.unit.smp.pre] smpInv(c) && encOK(c)
 //@   requires [C14.once.pre,C05.frag.once.pre] !fragDone(c)
 //@   modifies anything
-//@   modifies macok(nil), mackey(nil), ctrok(nil), commitok(nil), akemacok(nil), sigok(nil), seclog(c), msglog(c), smplog(c), kmcWiped(addr(c.keys)), keysWiped(addr(c.keys)), akeWiped(c.ake), akeKeysWiped(c.ake), kmcWiped(addr(c.ake.keys)), keysWiped(addr(c.ake.keys))
+//@   modifies macok(nil), mackey(nil), ctrok(nil), commitok(nil), akemacok(nil), sigok(nil), seclog(c), msglog(c), smplog(c), zkpok(nil), smpok(nil), kmcWiped(addr(c.keys)), keysWiped(addr(c.keys)), akeWiped(c.ake), akeKeysWiped(c.ake), kmcWiped(addr(c.ake.keys)), keysWiped(addr(c.ake.keys))
 //@   ensures [C19.injections.flushed] len(c.injections.messages) == 0
 //@   ensures [C14.once,C05.frag.once,C15.frag.once] !fragDone(c)
 //@   ensures [C16.disabled.recv.a] (!old(hasPol(c, allowV2)) && !old(hasPol(c, allowV3))) ==> (err == nil && len(toSend) == 0)
@@ -1349,6 +1657,7 @@ package otr3
 //@ loop (*Conversation).processTLVs #0
 //@   invariant c != nil && nonglobal(retTLVs) && macok(nil) && ctrok(nil)
 //@   invariant akeInv(c)
+//@   invariant [C12.tlv.smp.loop] c.version != nil && smpInv(c) && encOK(c)
 //@   exit [C18.tlv.all,C02.tlv.all] rangeindex + 1 >= len(tlvs)
 
 // ---------------------------------------------------------------------------
@@ -1479,6 +1788,7 @@ package otr3
 // ---------------------------------------------------------------------------
 //@ func toSmpMessage1Q
 //@   ensures [C17.smp1q.question,C12.smp1q.question] ok ==> msg.hasQuestion
+//@   ensures [C12.parse.smp1q,C17.parse.smp1q] ok ==> m1OK(msg)
 //@   ensures [C17.smp1q.nul] ok ==> (exists i in 0..len(t.tlvValue) :: t.tlvValue[i] == 0)
 
 //@ func (*resendContext).shouldRetransmit
